@@ -43,6 +43,19 @@ func c06Fail(kind string) string {
 		return "throw \"t\""
 	case "framelimit":
 		return "var rr; rr = func(n) { return 1 + rr(n + 1) }; q := rr(0)"
+	case "wideexpr":
+		// one expression that needs more value-stack slots than there are, without any recursion
+		return "q := len([" + repeatList(2100, func(i int) string { return "a" }, ", ") + "])"
+	case "notiterable":
+		return "for v in 5 + b { }"
+	case "setindex":
+		return "q := [1]; q[5 + b] = 1"
+	case "setselector":
+		return "q := 1 + b; q.a = 2"
+	case "spread":
+		return "q := len(...(5 + b))"
+	case "builtin-type":
+		return "q := append(1 + b, 2)"
 	case "stacklimit":
 		return "var ww; ww = func(n) {\n" + repeatList(150, func(i int) string { return fmt.Sprintf("l%d := n", i) }, "; ") + "\nreturn 1 + ww(n + 1) }; q := ww(0)"
 	}
